@@ -33,7 +33,9 @@ class Case:
     """name, factory() -> real module, input shape (without batch), optional context shape, symbolic buffers,
     assumptions(sym_params dict, x Sym) -> [Bool terms]"""
 
-    def __init__(self, name, factory, in_shape, ctx_shape=None, buffers=(), positive_buffers=(), assume=None, post=None, eval_mode=True, tier="quick", note="", domain=None, classes=(), rt_box=None):
+    def __init__(self, name, factory, in_shape, ctx_shape=None, buffers=(), positive_buffers=(), assume=None, post=None, eval_mode=True, tier="quick", note="", domain=None, classes=(), rt_box=None, rt_assume=None):
+        # rt_assume: {(order, "start"): fn(x Sym) -> [Bool terms]} extra assumptions on the round-trip start value
+        self.rt_assume = rt_assume or {}
         # rt_box: {(order, stage): (lo, hi)} closed box assumed for the round-trip start / middle values
         self.rt_box = rt_box or {}
         self.name, self.factory, self.in_shape, self.ctx_shape = name, factory, tuple(in_shape), ctx_shape
@@ -149,13 +151,26 @@ def _in_box(lo, hi, strict=False):
     return f
 
 
+def _off_seam(c, margin=1e-9):
+    def f(x):
+        out = []
+        for s_ in x.a.reshape(-1):
+            t = s_.real().t
+            for cc in (c, -c):
+                out.append(tm.or_(tm.lt(t, tm.const(cc - margin)), tm.gt(t, tm.const(cc + margin))))
+        return out
+
+    return f
+
+
 def all_cases():
     cs = []
     A = cs.append
     # ---- element-wise non-linearities ----
     A(Case("Exp/2d", lambda: NL.Exp(), (2,)))
     A(Case("Tanh/2d", lambda: NL.Tanh(), (2,)))
-    A(Case("LogTanh/2d", lambda: NL.LogTanh(cut_point=1), (1,)))
+    A(Case("LogTanh/2d", lambda: NL.LogTanh(cut_point=1), (1,), rt_assume={("fi", "start"): _off_seam(float(np.tanh(1.0))), ("if", "start"): _off_seam(1.0)},
+           note="round trips: start values within 1e-9 of the seam (+-cut_point resp. +-tanh(cut_point)) excluded - there the two branches agree only up to the float rounding of the precomputed alpha/beta constants"))
     A(Case("LeakyReLU/2d", lambda: NL.LeakyReLU(negative_slope=0.25), (2,)))
     SIG_BOX = {("if", "mid"): (1e-6, 1 - 1e-6), ("fi", "start"): (1e-6, 1 - 1e-6)}
     LOGIT_BOX = {("fi", "mid"): (1e-6, 1 - 1e-6), ("if", "start"): (1e-6, 1 - 1e-6)}
@@ -184,7 +199,8 @@ def all_cases():
     A(Case("PointwiseAffine/scalar", lambda: ST.PointwiseAffineTransform(shift=0.5, scale=2.0), (2,), buffers=("_shift", "_scale"), assume=_nonzero(["_scale"])))
     A(Case("PointwiseAffine/vector", lambda: ST.PointwiseAffineTransform(shift=torch.tensor([0.5, 1.0]), scale=torch.tensor([2.0, -3.0])), (2,), buffers=("_shift", "_scale"), assume=_nonzero(["_scale"])))
     A(Case("PointwiseAffine/scalar,image", lambda: ST.PointwiseAffineTransform(shift=0.5, scale=2.0), (2, 1, 2), buffers=("_shift", "_scale"), assume=_nonzero(["_scale"])))
-    A(Case("PointwiseAffine/vector,image", lambda: ST.PointwiseAffineTransform(shift=torch.tensor([0.5, 1.0]), scale=torch.tensor([2.0, -3.0])), (2, 1, 2), buffers=("_shift", "_scale"), assume=_nonzero(["_scale"]), tier="thorough"))
+    A(Case("PointwiseAffine/vector,image", lambda: ST.PointwiseAffineTransform(shift=torch.tensor([0.5, 1.0]), scale=torch.tensor([2.0, -3.0])), (2, 1, 2), buffers=("_shift", "_scale"), assume=_nonzero(["_scale"])))
+    A(Case("PointwiseAffine/per-channel,image", lambda: ST.PointwiseAffineTransform(shift=torch.zeros(2, 1, 1), scale=torch.tensor([2.0, -3.0]).reshape(2, 1, 1)), (2, 1, 2), buffers=("_shift", "_scale"), assume=_nonzero(["_scale"])))
     # ---- normalisation ----
     A(Case("BatchNorm/eval", lambda: NM.BatchNorm(2), (2,), buffers=("running_mean", "running_var"), positive_buffers=("running_var",)))
     A(Case("ActNorm/2d", lambda: NM.ActNorm(2), (2,), post=_init_actnorm))
@@ -223,6 +239,8 @@ def all_cases():
     for nm, cls in (("PiecewiseLinearCoupling", CP.PiecewiseLinearCouplingTransform), ("PiecewiseQuadraticCoupling", CP.PiecewiseQuadraticCouplingTransform), ("PiecewiseCubicCoupling", CP.PiecewiseCubicCouplingTransform), ("PiecewiseRationalQuadraticCoupling", CP.PiecewiseRationalQuadraticCouplingTransform)):
         A(Case(nm + "/K=2", (lambda cls=cls: cls([1, -1], _ufnet("cond", hidden=4), num_bins=2)), (2,), domain=_in_box(0, 1)))
         A(Case(nm + "/K=2,tails", (lambda cls=cls: cls([-1, 1], _ufnet("cond", hidden=4), num_bins=2, tails="linear", tail_bound=2.0)), (2,), tier="thorough" if nm != "PiecewiseRationalQuadraticCoupling" else "quick"))
+    A(Case("PiecewiseRationalQuadraticCoupling/K=1,tails,floors", lambda: CP.PiecewiseRationalQuadraticCouplingTransform([-1, 1], _ufnet("cond", hidden=4), num_bins=1, tails="linear", tail_bound=2.0, min_bin_width=0.05, min_bin_height=0.1, min_derivative=0.2), (2,)))
+    A(Case("PiecewiseRationalQuadraticCDF/K=2,floors", lambda: NL.PiecewiseRationalQuadraticCDF(shape=[1], num_bins=2, min_bin_width=0.05, min_bin_height=0.1, min_derivative=0.2), (1,), domain=_in_box(0, 1)))
     A(Case("PiecewiseRationalQuadraticCoupling/image", lambda: CP.PiecewiseRationalQuadraticCouplingTransform([1, -1], _ufnet("cond", hidden=4), num_bins=2), (2, 1, 2), domain=_in_box(0, 1)))
     A(Case("PiecewiseRationalQuadraticCoupling/uncond", lambda: CP.PiecewiseRationalQuadraticCouplingTransform([1, -1], _ufnet("cond", hidden=4), num_bins=2, apply_unconditional_transform=True), (2,), domain=_in_box(0, 1)))
     A(Case("PiecewiseLinearCoupling/image", lambda: CP.PiecewiseLinearCouplingTransform([1, -1], _ufnet("cond", hidden=4), num_bins=2), (2, 1, 2), domain=_in_box(0, 1), tier="thorough"))
